@@ -176,6 +176,8 @@ register(Contract(
         'real-float-dtype': lambda a, r: None if imm_bad(a) else z3.BoolVal(all(m.kind == 'f' for m in imm_mats(a, r))),
         # C17: the returned matrices never share memory with the caller's `init` array or the training data
         'fresh': lambda a, r: None if imm_bad(a) else z3.BoolVal(all(len(m.owner) == 0 for m in imm_mats(a, r))),
+        # C11 / C20: with strict_pd the returned matrix is positive definite
+        'strict_pd-result-is-positive-definite': lambda a, r: None if (imm_bad(a) or not z3.is_true(a.strict_pd)) else TH.pd(imm_mats(a, r)[0].term),
     },
     raises={'ValueError': May() , 'LinAlgError': May(), 'NonPSDError': May()},
     events={'randomness-only-from-random_state': lambda a, ev, r: z3.BoolVal(all(
